@@ -1,4 +1,5 @@
 """Verification of one function against its contract; use of contracts at call sites."""
+import os
 import time
 import traceback
 import types
@@ -106,6 +107,12 @@ def apply_contract(interp, c, func, args, kwargs):
         env = dict(env, old=old)      # `when` conditions of exceptional outcomes may mention the pre-state
     if c.event is not None:
         st.emit(c.event, dict(bound))
+    # deterministic `when` conditions of exceptional outcomes are predicates of the PRE-state: evaluated before
+    # the frame is havoced (the callee may change the fields they read)
+    when_pre = {}
+    for exc_cls_, spec_ in c.raises.items():
+        if spec_.get('when') is not None:
+            when_pre[exc_cls_] = interp.truth(_call_pred(interp, spec_['when'], env))
     # frame: ghost state the callee may change (entries 'ghost:<key>' of `modifies`) is havoced;
     # what is known about it afterwards is what the (exceptional) postconditions say
     short = c.qname.rpartition(':')[2]
@@ -167,7 +174,7 @@ def apply_contract(interp, c, func, args, kwargs):
         for exc_cls, spec in c.raises.items():
             when = spec.get('when')
             if when is not None:
-                w = interp.truth(_call_pred(interp, when, env))
+                w = when_pre[exc_cls]
                 if interp.st.fork(w):
                     raise_(exc_cls, spec)
         nondet = [o for o in outcomes[1:] if o[2].get('when') is None]
@@ -266,6 +273,78 @@ def _havoc_modified(interp, c, bound):
             if not models.havoc_mutable(interp, obj, '%s.%s' % (tag, c.qname.rpartition(':')[2])):
                 raise Unsupported('modifies %r of %s: nothing to havoc (neither a symbolic mutable list, an '
                                   'iterator nor a symbolic map)' % (path, c.qname))
+
+
+def _snapshot_fields(interp, args):
+    """(path -> value) of the instance attributes reachable from the parameters (two levels, plus the declared
+    attributes of opaque objects held in fields), to check the frame of a contract with `modifies`."""
+    from .values import Opaque
+    snap = {}
+
+    def fields(obj):
+        if isinstance(obj, Opaque):
+            return dict(obj._pv_attrs)
+        d = getattr(obj, '__dict__', None)
+        if isinstance(d, dict) and not isinstance(obj, (type, Sym)) and type(obj).__module__ != 'builtins':
+            return dict(d)
+        return None
+
+    def walk(prefix, obj, depth):
+        fs = fields(obj)
+        if fs is None:
+            return
+        for k, v in fs.items():
+            if not isinstance(k, str):
+                continue
+            path = '%s.%s' % (prefix, k)
+            snap[path] = (obj, k, v)
+            if depth < 3:
+                walk(path, v, depth + 1)
+
+    for name, v in args.items():
+        walk(name, v, 0)
+    return snap
+
+
+def _same_value(a, b):
+    if a is b:
+        return True
+    if isinstance(a, (SInt, SBool)) and type(a) is type(b):
+        return a.t.eq(b.t)
+    from .values import SStr
+    if isinstance(a, SStr) and isinstance(b, SStr):
+        return a.t.eq(b.t)
+    if isinstance(a, (int, str, bool, type(None))) and type(a) is type(b):
+        return a == b
+    return False
+
+
+def _check_frame(interp, c, args, before, fname):
+    """every field that differs from the snapshot must be covered by a `modifies` entry (itself or a prefix)"""
+    after = _snapshot_fields(interp, args)
+    declared = list(c.modifies or {})
+    bad = []
+    for path, (obj, k, v0) in before.items():
+        cur = after.get(path)
+        if cur is None:
+            # the holder itself was replaced: reported at the holder's path
+            continue
+        if cur[0] is not obj:
+            continue
+        if not _same_value(v0, cur[2]):
+            if not any(path == d or path.startswith(d + '.') for d in declared):
+                bad.append(path)
+    for path in after:
+        if path not in before and not any(path == d or path.startswith(d + '.') for d in declared):
+            par = path.rpartition('.')[0]
+            if par in before and after.get(par) is not None and before[par][2] is after[par][2]:
+                # a new attribute on an object that existed before (lazily created interface attributes are
+                # reads, not writes: they are only in _pv_attrs once read)
+                from .values import Opaque
+                if not isinstance(after[path][0], Opaque):
+                    bad.append(path)
+    interp.st.oblige('%s : frame[modifies %s]' % (fname, ', '.join(declared) or 'nothing'), not bad,
+                     {'kind': 'frame', 'changed_outside_frame': bad})
 
 
 def _make_exc(interp, exc_cls, spec, env):
@@ -456,6 +535,7 @@ def _run_path(interp, reg, c, func, rep):
             ghosts.update(extra)
             reg.ghost_env.update(extra)
     env = _clause_env(args, ghosts, {'trace': st.trace, 'ghost': st.ghost})
+    interp.root_values = [args, ghosts]
     if c.requires is not None:
         st.assume(interp.truth(_call_pred(interp, c.requires, env)))
     if st.check() == z3.unsat:
@@ -465,6 +545,7 @@ def _run_path(interp, reg, c, func, rep):
         old = _call_pred(interp, c.old, env)
         env = dict(env, old=old)      # `when` conditions of exceptional outcomes may mention the pre-state
         reg.ghost_env['old'] = old        # visible to loop invariants
+        interp.root_values.append(old)
     # `when` conditions of exceptional outcomes are predicates of the PRE-state: evaluated before the call
     # (the function may mutate its arguments)
     when_values = {}
@@ -499,6 +580,7 @@ def _run_path(interp, reg, c, func, rep):
     pos = [args[n] for n in names[:code.co_argcount]]
     kw = {n: args[n] for n in names[code.co_argcount:] if n in args}
     outcome = None
+    frame_before = _snapshot_fields(interp, args) if isinstance(c.modifies, dict) else None
     ghost0 = dict(st.ghost)
     info = frontend.funcinfo_of(func)
     mlists_before = _mutable_lists_of(args)
@@ -519,6 +601,8 @@ def _run_path(interp, reg, c, func, rep):
     key = 'return' if outcome[0] == 'return' else type(outcome[1]).__name__
     rep.outcomes[key] = rep.outcomes.get(key, 0) + 1
     fname = c.qname
+    if frame_before is not None:
+        _check_frame(interp, c, args, frame_before, fname)
     # frame: a symbolic mutable list reachable from the parameters that the function changed must be declared in
     # `modifies` (call sites keep everything else they know about such a list)
     mlists_after = _mutable_lists_of(args)
@@ -581,7 +665,7 @@ def _run_path(interp, reg, c, func, rep):
             if ('ghost:' + key) in c.modifies:
                 continue
             if key.startswith('__'):
-                continue        # bookkeeping of the engine's own models (caches of shared pieces, axioms added), not monitor state
+                continue        # bookkeeping of the engine (string pieces, caches, character classes): not monitor state
             v0, v1 = ghost0.get(key, _MISSING), st.ghost.get(key, _MISSING)
             if v0 is v1:
                 continue
@@ -593,6 +677,20 @@ def _run_path(interp, reg, c, func, rep):
             st.oblige('%s : frame[ghost %s unchanged]' % (fname, key), same, {'kind': 'frame'})
     # vacuity guard: the path must be satisfiable, otherwise its obligations say nothing
     if st.check() == z3.unsat:
+        if os.environ.get('PYVC_TRACE_UNSAT'):
+            sv = z3.Solver()
+            sv.set('timeout', 20000)
+            ps = []
+            for i, t in enumerate(st.pc):
+                p_ = z3.Bool('pc!%d' % i)
+                sv.assert_and_track(t, p_)
+                ps.append((p_, t))
+            print('PYVC_TRACE_UNSAT: vacuous path at the end of %s (outcome %s, %d decisions); unsat core:'
+                  % (fname, key, len(st.decisions)), sv.check(), flush=True)
+            core = set(str(x) for x in sv.unsat_core())
+            for p_, t in ps:
+                if str(p_) in core:
+                    print('      ', str(t)[:400].replace('\n', ' '), flush=True)
         st.obligations[:] = [o for o in st.obligations if o[3].get('kind') in ('callee-pre', 'loop-entry')]
         raise PathAbort()
     if c.raises_only is not None and outcome[0] == 'return':
